@@ -231,6 +231,22 @@ def convert_archive(archive):
         t.difference_update(affected)
         additions.extend(affected.change_offset(x.location, x.resolved_target))
 
+    # an entry moved above can land below another symlinked directory (a chain
+    # of them); resolve those again.  Bounded by the number of symlinks so a
+    # loop of links terminates.
+    for _ in range(len(syms)):
+        pending = contents.contentsSet(additions, mutable=True)
+        rerouted = []
+        for x in syms:
+            affected = pending.child_nodes(x.location)
+            if not affected:
+                continue
+            pending.difference_update(affected)
+            rerouted.extend(affected.change_offset(x.location, x.resolved_target))
+        if not rerouted:
+            break
+        additions = list(pending) + rerouted
+
     t.update(additions)
     t.add_missing_directories()
 
